@@ -14,7 +14,7 @@ from vmon.util import mk_rng, guarded, Raised
 ID = "C19"
 RULE = (
     "seeded samples (normal, gamma, lognormal, t5, logistic, beta; 300-20000 points; scale 1e-6..1e6; location up to 1e6 "
-    "standard deviations from zero) x both estimators (one KDE in five with a bandwidth cross-validated on a sub-sample) x fractions 0.05-0.99; moments judged when < 1e-4 of the estimator's "
+    "standard deviations from zero) x both estimators (one KDE in five with a bandwidth cross-validated on a sub-sample) x fractions 0.05-0.99 (UnimodalPdf also 0.99-0.9995) and a few sample points' worth; moments judged when < 1e-4 of the estimator's "
     "own probability lies outside its integration range; non-trivial = skewed or shifted sample; distinct = distinct (sample, estimator)"
 )
 ASSUMPTIONS = [
@@ -275,7 +275,13 @@ def run_job(job, rec):
 
             # 4. highest-density intervals
             # (the last fraction holds only a handful of sample points: the interval of the sample it starts from is then a tiny cluster anywhere)
-            for f in (float(rng.uniform(0.05, 0.3)), float(rng.uniform(0.3, 0.8)), float(rng.uniform(0.8, 0.99)), float(rng.uniform(0.6, 15.0) / n)):
+            fracs = [float(rng.uniform(0.05, 0.3)), float(rng.uniform(0.3, 0.8)), float(rng.uniform(0.8, 0.99)), float(rng.uniform(0.6, 15.0) / n)]
+            if not is_kde:
+                # 0.99 .. 0.9995: the interval reaches into the tails (smooth estimator only: a kernel estimate's tails are bumps around single
+                # sample points, where "the" interval of a given content is one of several - see DESIGN.md section 8)
+                fracs.append(float(1.0 - 10.0 ** mk_rng(job["seed"], "C19-high", job["j"], c, name).uniform(-3.3, -2.0)))
+                rec.count("cases:fraction_above_0.99")
+            for f in fracs:
                 iv = guarded(E.interval, f)
                 if isinstance(iv, Raised):
                     rec.violation("raised", f"{name}.interval({f}) raised {iv!r}", ctx)
@@ -295,6 +301,14 @@ def run_job(job, rec):
                     # (best point of its bracket, peak outside) the search stalls next to it: same mechanism, same finding
                     rec.violation("kde-mode-search-bracket-excludes-peak",
                                   f"{name}: interval({f:.4f}) = ({a!r}, {b!r}) holds {cb - ca!r}: the search started from a reported mode that is not the peak of the density", ictx)
+                    continue
+                if f >= 0.99 and a < b and min(pa, pb) <= 1e-8 * P.peak and abs((cb - ca) - f) <= 3e-3 and abs(pa - pb) <= 1e-2 * P.peak \
+                        and (not ok_mass or abs(pa - pb) > 1e-3 * P.peak):
+                    # recorded known finding: for a fraction this close to one an end of the search's starting interval (the sample's own interval)
+                    # lies where the estimated density is numerically zero and flat; there the search's cost has a stationary point at which the
+                    # density of the *other* end is traded against the mass error (see KNOWN_FINDINGS.txt). Anything larger is reported as usual.
+                    rec.violation("interval-search-stalls-with-an-end-in-an-empty-region",
+                                  f"{name}: interval({f:.4f}) = ({a!r}, {b!r}) holds {cb - ca!r}; end densities {pa / P.peak:.2e} and {pb / P.peak:.2e} of the peak", ictx)
                     continue
                 rec.check(ok_mass, "interval-mass",
                           lambda: f"{name}: interval({f:.4f}) = ({a!r}, {b!r}) holds probability {cb - ca!r} under the estimator's own cdf", ictx)
